@@ -58,6 +58,7 @@ class ItemSession(object):
     def skip(self):
         '''Mark the item as processed without download.'''
         _logger.debug(__(_('Skipping ‘{url}’.'), url=self.url_record.url))
+        self.finish()
         self.app_session.factory['URLTable'].check_in(self.url_record.url, Status.skipped)
 
         self._processed = True
@@ -78,6 +79,10 @@ class ItemSession(object):
             self._try_count_incremented = True
 
         _logger.debug(__('Marking URL {0} status {1}.', url, status))
+
+        # Make the discovered links durable before the item itself is
+        # checked in, otherwise a crash in between loses them for good.
+        self.finish()
 
         url_result = URLResult()
         url_result.filename = filename
